@@ -3,7 +3,7 @@ C18 — The IR survives serialization; split and in-process pipelines agree.
 
 Property theorems only.  Model: Emboss/Model/Json.lean (mirrors ir_data_utils.IrDataSerializer,
 ir_data_fields, ir_data.Message, parser_types.SourceLocation).  Spec: Emboss/Spec/Json.lean.
-Lemmas: Emboss/Lemmas/Json{Loc,Rt,RtMain}.lean.  Regenerated schema + `SchemaOk` obligation:
+Lemmas: Emboss/Lemmas/Json{Loc,Rt,RtMain,Wf,TextStr,Text}.lean (text layer: Model/JsonText.lean).  Regenerated schema + `SchemaOk` obligation:
 Emboss/Generated/IrSchema{,Ok}.lean.
 
 All theorems are generic over every schema `S` with `SchemaOk S` (decidable) and every
@@ -13,6 +13,7 @@ schema extracted from the current `ir_data.py`.
 import Emboss.Spec.Json
 import Emboss.Lemmas.JsonRtMain
 import Emboss.Lemmas.JsonWf
+import Emboss.Lemmas.JsonText
 import Emboss.Generated.IrSchemaOk
 namespace Emboss.Json
 
@@ -42,6 +43,38 @@ theorem C18_to_json_idempotent (S : Schema) (hS : SchemaOk S) (c : String) (m : 
   refine ⟨Spec.idempotent_of_roundTrips hr, ?_⟩
   obtain ⟨d, h1, h2⟩ := hr
   exact ⟨d, m, h1, h2, rfl⟩
+
+/-- TEXT level (round 2): reading back what `json.dumps` wrote gives the same JSON value —
+for *every* value of the generic `Dv` type: all strings (quotes, backslashes, control
+characters, non-ASCII, non-BMP characters written as `\\uD8xx\\uDCxx` surrogate pairs), all
+integers of any magnitude and sign, `null`/`true`/`false`, lists and dicts of any nesting and
+any keys.  The reader (`parseJson`, a model of `json.loads` on the language of `json.dumps`)
+consumes the whole text and never runs out of its fuel `2·|text| + 2`. -/
+theorem C18_json_text_roundtrip (d : Dv) : parseJson d.render = .ok d [] :=
+  parseJson_render d
+
+/-- `C18_to_json_idempotent` at the level of the JSON **text**: `to_json(m)` produces a text `t`,
+`from_json(t)` (= `json.loads` then `_from_dict`) gives back exactly `m`, and serializing
+whatever `from_json(t)` returns gives the identical text `t` again. -/
+theorem C18_to_json_idempotent_text (S : Schema) (hS : SchemaOk S) (c : String) (m : Val)
+    (h : WfMsg S c m) :
+    ∃ t, toJson S m = some t ∧ fromJson S c t = some m ∧
+      ∀ m', fromJson S c t = some m' → toJson S m' = some t := by
+  obtain ⟨d, h1, h2⟩ := C18_roundtrip S hS c m h
+  have hj : toJson S m = some d.render := by simp [toJson, h1]
+  have hf : fromJson S c d.render = some m := by
+    simp only [fromJson, parseJson_render d, h2]
+  refine ⟨d.render, hj, hf, ?_⟩
+  intro m' hm'
+  rw [hf] at hm'
+  cases hm'
+  exact hj
+
+/-- The same for the schema of the IR as it is in the tree now. -/
+theorem C18_to_json_idempotent_text_ir (c : String) (m : Val) (h : WfMsg Generated.schema c m) :
+    ∃ t, toJson Generated.schema m = some t ∧ fromJson Generated.schema c t = some m ∧
+      ∀ m', fromJson Generated.schema c t = some m' → toJson Generated.schema m' = some t :=
+  C18_to_json_idempotent_text _ Generated.schema_ok c m h
 
 /-- `SourceLocation.from_str(str(l)) == l` for every location the constructor admits
 (start ≤ end; line/column both zero or both positive; start, end both falsy or both
@@ -137,6 +170,24 @@ example : toJson schema exFalsy = some
 example : hasField schema (.msg "WriteMethod" [.bool false, .none, .none, .none]) "physical" = true
     ∧ hasField schema (.msg "WriteMethod" [.bool false, .none, .none, .none]) "read_only" = false := by
   decide +kernel
+
+/-- Text layer, non-vacuity: a value with every escape class, a non-BMP character, a number
+beyond 64 bits, nesting and an empty list/dict — rendered and read back (evaluated). -/
+def exText : Dv :=
+  .dict [("k\"\\\n\t", .list [.int (-18446744073709551617), .str "é\u0001😀/", .null, .bool true, .list [], .dict []]),
+         ("", .str "")]
+
+example : exText.render =
+    "{\"k\\\"\\\\\\n\\t\": [-18446744073709551617, \"\\u00e9\\u0001\\ud83d\\ude00/\", null, true, [], {}], \"\": \"\"}" := by
+  decide +kernel
+example : parseJson exText.render = .ok exText [] := C18_json_text_roundtrip exText
+/-- the reader is strict: trailing text, a lone surrogate, a raw control character are rejected. -/
+example : (match parseJson "[1, 2] " with | .err => true | _ => false) = true := by decide +kernel
+example : (match parseJson "\"\\ud83d\"" with | .err => true | _ => false) = true := by decide +kernel
+example : (match parseJson "\"a\nb\"" with | .err => true | _ => false) = true := by decide +kernel
+example : fromJson schema "Expression" ((toJson schema exExpr).getD "") = some exExpr := by
+  obtain ⟨t, h1, h2, _⟩ := C18_to_json_idempotent_text_ir "Expression" exExpr (by decide +kernel)
+  simp [h1, h2]
 
 /-- A dict that `to_dict` never produces (two members of oneof `type`, an enum by name, a
 `null`, an unknown key, explicit empty list): `_from_dict` accepts it, the constructor keeps
